@@ -157,10 +157,89 @@ func c06StaleFull(w *W) {
 				last = k
 			}
 		}
+		// the same logger object lives a second time: per-producer order and the policy hold for it like for a fresh one
+		if !bad {
+			if err := l.Start(); err != nil {
+				w.Violate("C06:stale-full:restart", "Start after Stop failed: "+err.Error(), cs)
+				continue
+			}
+			g.Open.Store(true)
+			c0 := l.GetDiscardCounter()
+			for i := 200; i < 206; i++ {
+				submit(i)
+			}
+			if ok, pv, _ := callWithWatchdog(30*time.Second, l.Stop); !ok || pv != nil {
+				w.Violate("C06:stale-full:stop", fmt.Sprintf("Stop of the second life: returned=%v panic=%v", ok, pv), cs)
+				w.flush()
+				return
+			}
+			var second []int
+			for _, it := range rec.take() {
+				var k int
+				if _, err := fmt.Sscanf(idOf(it.JSON), fmt.Sprintf("id-sf%dx%d-%%d", w.Spec.Shard, ci), &k); err == nil {
+					second = append(second, k)
+				}
+			}
+			if fmt.Sprint(second) != "[200 201 202 203 204 205]" || l.GetDiscardCounter() != c0 {
+				bad = true
+				w.Violate("C06:stale-full:second-life:"+policy, fmt.Sprintf("after Stop and Start of the same logger object six items were submitted to the empty buffer: delivered %v, discard counter %d -> %d", second, c0, l.GetDiscardCounter()), cs)
+			}
+		}
 		w.Eval(1)
 		if !bad {
 			w.Distinct(fmt.Sprintf("stalefull|%s|layout=%v", policy, layout))
 			w.Sample(cs)
+		}
+	}
+	// Block means wait, however long the consumer takes: a producer parked on the full queue is still parked after four seconds
+	// of a stalled appender, nothing is counted as discarded, and once the appender moves again everything arrives in order.
+	{
+		c := asyncCase{Policy: "Block", Buf: 100, Producers: 1, Appender: "gated"}
+		cs := map[string]any{"scenario": "Block policy, appender stalled for 4 s with a full queue and a waiting producer"}
+		rec.take()
+		l, sinkName, stop, err := buildAsync(c, "")
+		if err == nil {
+			g := gateFor(sinkName)
+			g.Open.Store(false)
+			id := func(i int) string { return fmt.Sprintf("id-lb%d-%d", w.Spec.Shard, i) }
+			appendEvent(l, log.InfoLevel, id(0))
+			if _, ok := waitEntered(g, 20*time.Second); ok {
+				for i := 1; i <= 100; i++ {
+					appendEvent(l, log.InfoLevel, id(i))
+				}
+				ret := make(chan struct{})
+				go func() { c06blockedSender(func() { appendEvent(l, log.InfoLevel, id(101)) }); close(ret) }()
+				early := false
+				select {
+				case <-ret:
+					early = true
+				case <-time.After(4 * time.Second):
+				}
+				counter := l.GetDiscardCounter()
+				g.Open.Store(true)
+				for i := 0; i < 4; i++ {
+					g.Gate <- struct{}{}
+				}
+				<-ret
+				if ok, pv, _ := callWithWatchdog(30*time.Second, stop); !ok || pv != nil {
+					w.Inconclusive("long-block: Stop did not return")
+				} else {
+					var got []string
+					for _, it := range rec.take() {
+						got = append(got, idOf(it.JSON))
+					}
+					okAll := !early && counter == 0 && l.GetDiscardCounter() == 0 && len(got) == 102
+					for i := 0; okAll && i < 102; i++ {
+						okAll = got[i] == id(i)
+					}
+					w.Eval(1)
+					if !okAll {
+						w.Violate("C06:block-gave-up", fmt.Sprintf("Block policy with an appender stalled for 4 s: the waiting call returned early=%v, discard counter %d, %d of 102 items delivered in order", early, l.GetDiscardCounter(), len(got)), cs)
+					} else {
+						w.Distinct("long-block")
+					}
+				}
+			}
 		}
 	}
 	for k, v := range y.counts() {
